@@ -82,7 +82,7 @@ def run(ctx):
         rc, so, se = sh([exe, "probe"], timeout=60)
         blackhole = "blackhole: ok" in so
         classes = [c for c in C09_CLASSES if blackhole or not c.startswith("blackhole")]
-        per, maxk, shards = ctx.pick(3, 30), ctx.pick(32, 128), ctx.pick(8, 10)
+        per, maxk, shards = ctx.pick(5, 30), ctx.pick(32, 128), ctx.pick(8, 10)
         ctx.log("harness built; blackhole available: %s" % blackhole)
         traces, hits = mux.drive(ctx, exe, classes, per, maxk, shards, "c09")
         ctx.log("%d runs recorded" % len(traces))
